@@ -1,6 +1,624 @@
-//! Property C18 — correspondence / expectation run (see DESIGN.md §5, C18).
+//! Property C18 — thread count / `parallel` feature (DESIGN.md §5, C18).
+//!
+//! Child mode (`--child`): derive the C18 transcript set from `ctx.seed` alone and print one line
+//! `digest <case-id> <sha256 of the canonical serialization>` per deterministic output:
+//! universal parameters, committer / verifier keys, non-hiding and seeded-hiding commitments with
+//! their commitment states, batch proofs of the provers that draw all randomness from the caller,
+//! and the verifier's decision on the honest and on a tampered claim.
+//! Hyrax `commit` under `parallel` blinds with `rand::thread_rng()` (translators/par_sites.py lists
+//! that site, Props/C18.lean pins it), so its commitments and proofs are not deterministic outputs:
+//! the parent produces ONE Hyrax transcript per case with the default binary, stores it under
+//! `ctx.workdir`, and every child only verifies it (keys and decisions are compared).
+//!
+//! Parent mode: run this executable as a child under `RAYON_NUM_THREADS ∈ {1,2,3,8,16}` (16 repeated)
+//! and the harness binary built without the `parallel` feature (`--nopar-bin`), and require the same
+//! set of case-ids with the same digests everywhere.
+use crate::common::*;
+use crate::generic::{self, Instance, Outcome, Scheme, Sizes};
+use crate::kzg;
 use crate::Ctx;
+use ark_bls12_381::Fr;
+use ark_ff::{One, UniformRand};
+use ark_poly::{DenseUVPolynomial, Polynomial};
+use ark_poly_commit::{LabeledCommitment, LabeledPolynomial, PolynomialCommitment};
+use ark_serialize::{CanonicalDeserialize, CanonicalSerialize};
+use sha2::{Digest, Sha256};
+use std::collections::BTreeMap;
+
+type Pt<S> = <<S as Scheme>::P as Polynomial<Fr>>::Point;
+type Comm<S> = <<S as Scheme>::PC as PolynomialCommitment<Fr, <S as Scheme>::P>>::Commitment;
+type BProof<S> = <<S as Scheme>::PC as PolynomialCommitment<Fr, <S as Scheme>::P>>::BatchProof;
+
+fn hex(bytes: &[u8]) -> String {
+    bytes.iter().map(|b| format!("{:02x}", b)).collect()
+}
+
+fn sha(bytes: &[u8]) -> String {
+    let mut h = Sha256::new();
+    h.update(bytes);
+    hex(&h.finalize())
+}
+
+/// SHA-256 of the canonical (compressed) serialization
+fn dg<T: CanonicalSerialize>(x: &T) -> String {
+    let mut buf = vec![];
+    x.serialize_compressed(&mut buf).expect("serialization of a library output");
+    sha(&buf)
+}
+
+/// Sizes large enough that every parallel site works on tens to thousands of items.
+pub trait Big: Scheme {
+    /// the prover draws all its randomness from the caller's RNG
+    const CALLER_RANDOM: bool = true;
+    fn big(t: usize) -> Sizes;
+    /// largest hiding bound used
+    const MAX_HIDING: usize = 8;
+}
+
+impl Big for generic::Marlin {
+    fn big(t: usize) -> Sizes {
+        let (d, s) = [(160, 150), (256, 256), (97, 96)][t % 3];
+        Sizes { max_degree: d, supported: s, num_vars: None }
+    }
+}
+impl Big for generic::Sonic {
+    fn big(t: usize) -> Sizes {
+        let (d, s) = [(144, 140), (256, 255), (101, 101)][t % 3];
+        Sizes { max_degree: d, supported: s, num_vars: None }
+    }
+}
+impl Big for generic::Ipa {
+    fn big(t: usize) -> Sizes {
+        let (d, s) = [(127, 127), (255, 255), (100, 63)][t % 3];
+        Sizes { max_degree: d, supported: s, num_vars: None }
+    }
+}
+impl Big for generic::Pst13 {
+    const MAX_HIDING: usize = 2;
+    fn big(t: usize) -> Sizes {
+        let (nv, d) = [(4, 4), (3, 6), (5, 3)][t % 3];
+        Sizes { max_degree: d, supported: d, num_vars: Some(nv) }
+    }
+}
+impl Big for generic::Hyrax {
+    const CALLER_RANDOM: bool = false;
+    fn big(t: usize) -> Sizes {
+        Sizes { max_degree: 1, supported: 1, num_vars: Some([8, 10, 6][t % 3]) }
+    }
+}
+impl Big for generic::UniLigero {
+    fn big(t: usize) -> Sizes {
+        // degree+1 coefficients in a ~sqrt x sqrt matrix: 65..95 columns, 4x as many after encoding
+        let d = [4200, 9000, 5000][t % 3];
+        Sizes { max_degree: d, supported: d, num_vars: None }
+    }
+}
+impl Big for generic::MlLigero {
+    fn big(t: usize) -> Sizes {
+        Sizes { max_degree: 1, supported: 1, num_vars: Some([12, 13, 11][t % 3]) }
+    }
+}
+impl Big for generic::Brakedown {
+    fn big(t: usize) -> Sizes {
+        Sizes { max_degree: 1, supported: 1, num_vars: Some([12, 13, 11][t % 3]) }
+    }
+}
+
+fn hyrax_file(workdir: &str, seed: u64, t: usize) -> String {
+    format!("{}/C18-hyrax-s{}-t{}.bin", workdir, seed, t)
+}
+
+/// Everything that precedes `commit`, derived from (seed, scheme, t) only — identical in every
+/// configuration as long as setup / trim consume the caller's RNG identically (which the `pp`,
+/// `ck`, `vk` digests check).  The query set is drawn BEFORE commit so that it does not depend on
+/// how much of the caller's RNG `commit` consumes.
+struct Prep<S: Scheme> {
+    inst: Instance<S>,
+    qs: ark_poly_commit::QuerySet<Pt<S>>,
+    ev: ark_poly_commit::Evaluations<Pt<S>, Fr>,
+    rng: Rng,
+}
+
+fn prepare<S: Big>(seed: u64, t: usize) -> Result<Prep<S>, String>
+where
+    Pt<S>: Clone + Ord + std::fmt::Debug,
+{
+    let mut rng = rng_for(seed, &format!("C18/{}", S::NAME), t as u64);
+    let sizes = S::big(t);
+    let pp = S::PC::setup(sizes.max_degree, sizes.num_vars, &mut rng)
+        .map_err(|e| format!("setup: {:?}", e))?;
+    let sup = sizes.supported;
+    let mut polys = vec![];
+    let mut kinds = vec![];
+    let mut bounds: Vec<usize> = vec![];
+    // p0: maximal degree, plain.  p1: bounded and hiding where the scheme has these notions.
+    // p2: random degree in the upper half, hiding without bound.
+    for i in 0..3usize {
+        let degree = match i {
+            0 => sup,
+            1 => (sup * 3 / 4).max(1),
+            _ => range(&mut rng, (sup / 2).max(1), sup),
+        };
+        let poly = S::rand_poly(&mut rng, &sizes, degree);
+        let deg = poly.degree();
+        let bound = if S::BOUNDS && i == 1 {
+            let b = range(&mut rng, deg.max(1), sup);
+            bounds.push(b);
+            Some(b)
+        } else {
+            None
+        };
+        let hiding = if S::HIDING && i >= 1 {
+            Some(range(&mut rng, S::HIDING_MIN.max(1), S::MAX_HIDING.min(sup).max(1)))
+        } else {
+            None
+        };
+        polys.push(LabeledPolynomial::new(format!("p{}", i), poly, bound, hiding));
+        kinds.push(["max-degree", "bounded", "dense"][i]);
+    }
+    let bounds_opt = if S::BOUNDS { Some(bounds) } else { None };
+    let (ck, vk) = S::PC::trim(&pp, sup, sup, bounds_opt.as_deref()).map_err(|e| format!("trim: {:?}", e))?;
+    let mut inst = Instance::<S> {
+        sizes,
+        pp,
+        ck,
+        vk,
+        polys,
+        kinds,
+        comms: vec![],
+        states: vec![],
+        bounds: bounds_opt,
+    };
+    let (qs, ev) = generic::query_set::<S>(&mut rng, &inst, 2, false);
+    inst.comms.clear();
+    Ok(Prep { inst, qs, ev, rng })
+}
+
+fn outcome_digest(o: &Outcome) -> String {
+    sha(format!("{:?}", o).as_bytes())
+}
+
+fn tampered<S: Scheme>(ev: &ark_poly_commit::Evaluations<Pt<S>, Fr>) -> ark_poly_commit::Evaluations<Pt<S>, Fr>
+where
+    Pt<S>: Clone + Ord,
+{
+    let mut ev2 = ev.clone();
+    if let Some((_, v)) = ev2.iter_mut().next() {
+        *v += Fr::one();
+    }
+    ev2
+}
+
+/// digests of one transcript of scheme `S`
+fn child_scheme<S: Big>(ctx: &Ctx, t: usize, out: &mut Vec<(String, String)>)
+where
+    Pt<S>: Clone + Ord + std::fmt::Debug,
+{
+    let id = |what: &str| format!("{}/t{}/{}", S::NAME, t, what);
+    let Prep { mut inst, qs, ev, mut rng } = match guarded(|| prepare::<S>(ctx.seed, t)) {
+        Ok(Ok(p)) => p,
+        Ok(Err(e)) | Err(e) => {
+            out.push((id("setup-failed"), sha(e.as_bytes())));
+            return;
+        }
+    };
+    out.push((id("pp"), dg(&inst.pp)));
+    out.push((id("ck"), dg(&inst.ck)));
+    out.push((id("vk"), dg(&inst.vk)));
+    let mut evbuf = vec![];
+    for ((l, _), v) in ev.iter() {
+        evbuf.extend_from_slice(l.as_bytes());
+        v.serialize_compressed(&mut evbuf).unwrap();
+    }
+    out.push((id("evaluations"), sha(&evbuf)));
+
+    let proof: BProof<S>;
+    if S::CALLER_RANDOM {
+        match guarded(|| S::PC::commit(&inst.ck, &inst.polys, Some(&mut rng))) {
+            Ok(Ok((comms, states))) => {
+                for c in &comms {
+                    let kind = inst
+                        .polys
+                        .iter()
+                        .find(|p| p.label() == c.label())
+                        .map(|p| if p.hiding_bound().is_some() { "hiding" } else { "plain" })
+                        .unwrap_or("?");
+                    let mut buf = vec![];
+                    c.commitment().serialize_compressed(&mut buf).unwrap();
+                    buf.extend_from_slice(format!("{:?}", c.degree_bound()).as_bytes());
+                    out.push((id(&format!("commit-{}-{}", c.label(), kind)), sha(&buf)));
+                }
+                out.push((id("commit-states"), dg(&states)));
+                inst.comms = comms;
+                inst.states = states;
+            }
+            Ok(Err(e)) => {
+                out.push((id("commit-refused"), sha(err_kind(&e).as_bytes())));
+                return;
+            }
+            Err(a) => {
+                out.push((id("commit-aborted"), sha(a.as_bytes())));
+                return;
+            }
+        }
+        let mut sp = generic::fresh_sponge();
+        sp.absorb_seed(t as u64);
+        match generic::batch_open::<S>(&inst, &qs, &mut sp, &mut rng) {
+            Ok(p) => {
+                out.push((id("batch-proof"), dg(&p)));
+                out.push((id("prover-sponge"), dg(&sp.probe())));
+                proof = p;
+            }
+            Err(e) => {
+                out.push((id("open-refused"), sha(e.as_bytes())));
+                return;
+            }
+        }
+    } else {
+        // transcript made once by the parent; the child only verifies it
+        let path = hyrax_file(&ctx.workdir, ctx.seed, t);
+        let bytes = match std::fs::read(&path) {
+            Ok(b) => b,
+            Err(e) => {
+                eprintln!("C18 child: transcript file {} missing: {}", path, e);
+                std::process::exit(3);
+            }
+        };
+        let mut rd = &bytes[..];
+        let cs = Vec::<Comm<S>>::deserialize_compressed(&mut rd).expect("stored commitments");
+        let p = BProof::<S>::deserialize_compressed(&mut rd).expect("stored proof");
+        inst.comms = inst
+            .polys
+            .iter()
+            .zip(cs)
+            .map(|(lp, c)| LabeledCommitment::new(lp.label().clone(), c, lp.degree_bound()))
+            .collect();
+        out.push((id("stored-transcript"), sha(&bytes)));
+        proof = p;
+    }
+    let mut crng = rng_for(ctx.seed, &format!("C18/{}/check", S::NAME), t as u64);
+    let mut vs = generic::fresh_sponge();
+    vs.absorb_seed(t as u64);
+    let o = generic::batch_check::<S>(&inst, &inst.comms, &qs, &ev, &proof, &mut vs, &mut crng);
+    out.push((id(&format!("check-honest={}", if o.accepted() { "accept" } else { "refuse" })), outcome_digest(&o)));
+    out.push((id("verifier-sponge"), dg(&vs.probe())));
+    let ev2 = tampered::<S>(&ev);
+    let mut vs2 = generic::fresh_sponge();
+    vs2.absorb_seed(t as u64);
+    let o2 = generic::batch_check::<S>(&inst, &inst.comms, &qs, &ev2, &proof, &mut vs2, &mut crng);
+    out.push((id(&format!("check-tampered={}", if o2.accepted() { "accept" } else { "refuse" })), outcome_digest(&o2)));
+}
+
+/// parent: the one transcript of a prover that does not draw all randomness from the caller
+fn parent_transcript<S: Big>(ctx: &mut Ctx, t: usize)
+where
+    Pt<S>: Clone + Ord + std::fmt::Debug,
+{
+    let path = hyrax_file(&ctx.workdir, ctx.seed, t);
+    let r = guarded(|| -> Result<Vec<u8>, String> {
+        let Prep { mut inst, qs, ev, .. } = prepare::<S>(ctx.seed, t)?;
+        let mut prng = rng_for(ctx.seed, &format!("C18/{}/prover", S::NAME), t as u64);
+        let (comms, states) =
+            S::PC::commit(&inst.ck, &inst.polys, Some(&mut prng)).map_err(|e| format!("commit: {:?}", e))?;
+        inst.comms = comms;
+        inst.states = states;
+        let mut sp = generic::fresh_sponge();
+        sp.absorb_seed(t as u64);
+        let proof = generic::batch_open::<S>(&inst, &qs, &mut sp, &mut prng)?;
+        let _ = ev;
+        let cs: Vec<Comm<S>> = inst.comms.iter().map(|c| c.commitment().clone()).collect();
+        let mut buf = vec![];
+        cs.serialize_compressed(&mut buf).map_err(|e| format!("{:?}", e))?;
+        proof.serialize_compressed(&mut buf).map_err(|e| format!("{:?}", e))?;
+        Ok(buf)
+    });
+    match r {
+        Ok(Ok(buf)) => {
+            std::fs::create_dir_all(&ctx.workdir).ok();
+            std::fs::write(&path, buf).expect("write transcript file");
+        }
+        Ok(Err(e)) | Err(e) => {
+            ctx.rep.notes.push(format!("{} t{}: parent could not produce the stored transcript: {}", S::NAME, t, e));
+            std::fs::remove_file(&path).ok();
+        }
+    }
+}
+
+/// plain KZG10 (not a `PolynomialCommitment` impl): setup, test-style trim, commit, open, check
+fn child_kzg10(ctx: &Ctx, t: usize, out: &mut Vec<(String, String)>) {
+    use kzg::{Kzg, UniPoly};
+    let id = |what: &str| format!("kzg10/t{}/{}", t, what);
+    let mut rng = rng_for(ctx.seed, "C18/kzg10", t as u64);
+    let (d, s) = [(200usize, 180usize), (256, 256), (130, 129)][t % 3];
+    let r = guarded(|| {
+        let pp = Kzg::setup(d, t % 2 == 1, &mut rng).expect("kzg10 setup");
+        out.push((id("pp"), dg(&pp)));
+        let (powers, vk) = kzg::trim(&pp, s);
+        out.push((id("powers"), dg(&powers)));
+        out.push((id("vk"), dg(&vk)));
+        let mut comms = vec![];
+        let mut zs = vec![];
+        let mut vals = vec![];
+        let mut proofs = vec![];
+        for (i, hb) in [None, Some(range(&mut rng, 1, 8)), Some(0usize)].into_iter().enumerate() {
+            let p = UniPoly::rand(if i == 0 { s } else { range(&mut rng, s / 2, s) }, &mut rng);
+            let kind = if hb.is_some() { "hiding" } else { "plain" };
+            let (c, rand) = Kzg::commit(&powers, &p, hb, Some(&mut rng)).expect("kzg10 commit");
+            out.push((id(&format!("commit-{}-{}", i, kind)), dg(&c)));
+            out.push((id(&format!("randomness-{}", i)), dg(&rand)));
+            let z = Fr::rand(&mut rng);
+            let v = p.evaluate(&z);
+            let pr = Kzg::open(&powers, &p, z, &rand).expect("kzg10 open");
+            out.push((id(&format!("proof-{}-{}", i, kind)), dg(&pr)));
+            let ok = Kzg::check(&vk, &c, z, v, &pr);
+            out.push((id(&format!("check-{}", i)), sha(format!("{:?}", ok.as_ref().map_err(err_kind)).as_bytes())));
+            let bad = Kzg::check(&vk, &c, z, v + Fr::one(), &pr);
+            out.push((id(&format!("check-tampered-{}", i)), sha(format!("{:?}", bad.as_ref().map_err(err_kind)).as_bytes())));
+            comms.push(c);
+            zs.push(z);
+            vals.push(v);
+            proofs.push(pr);
+        }
+        let mut brng = rng_for(ctx.seed, "C18/kzg10/batch", t as u64);
+        let b = Kzg::batch_check(&vk, &comms, &zs, &vals, &proofs, &mut brng);
+        out.push((id("batch-check"), sha(format!("{:?}", b.as_ref().map_err(err_kind)).as_bytes())));
+        vals[1] += Fr::one();
+        let b2 = Kzg::batch_check(&vk, &comms, &zs, &vals, &proofs, &mut brng);
+        out.push((id("batch-check-tampered"), sha(format!("{:?}", b2.as_ref().map_err(err_kind)).as_bytes())));
+    });
+    if let Err(a) = r {
+        out.push((id("aborted"), sha(a.as_bytes())));
+    }
+}
+
+fn transcripts(ctx: &Ctx) -> usize {
+    ctx.n(1, 3)
+}
+
+fn child(ctx: &mut Ctx) {
+    let n = transcripts(ctx);
+    let mut out: Vec<(String, String)> = vec![];
+    for t in 0..n {
+        child_scheme::<generic::Marlin>(ctx, t, &mut out);
+        child_scheme::<generic::Sonic>(ctx, t, &mut out);
+        child_scheme::<generic::Ipa>(ctx, t, &mut out);
+        child_scheme::<generic::Pst13>(ctx, t, &mut out);
+        child_scheme::<generic::Hyrax>(ctx, t, &mut out);
+        child_scheme::<generic::UniLigero>(ctx, t, &mut out);
+        child_scheme::<generic::MlLigero>(ctx, t, &mut out);
+        child_scheme::<generic::Brakedown>(ctx, t, &mut out);
+        child_kzg10(ctx, t, &mut out);
+    }
+    use std::io::Write;
+    let stdout = std::io::stdout();
+    let mut w = stdout.lock();
+    // what this process really is: lets the parent confirm that the configuration took effect
+    writeln!(
+        w,
+        "info parallel={} threads={}",
+        cfg!(feature = "parallel"),
+        rayon::current_num_threads()
+    )
+    .unwrap();
+    for (k, v) in &out {
+        writeln!(w, "digest {} {}", k, v).unwrap();
+    }
+    w.flush().unwrap();
+}
+
+struct Config {
+    name: String,
+    bin: String,
+    threads: usize,
+    /// the binary is expected to have been built with the `parallel` feature
+    parallel: bool,
+}
+
+fn child_cmd(c: &Config, ctx: &Ctx) -> Vec<String> {
+    vec![
+        "env".into(),
+        format!("RAYON_NUM_THREADS={}", c.threads),
+        c.bin.clone(),
+        "C18".into(),
+        "--child".into(),
+        "--seed".into(),
+        ctx.seed.to_string(),
+        "--tier".into(),
+        (if ctx.thorough { "thorough" } else { "quick" }).into(),
+        "--workdir".into(),
+        ctx.workdir.clone(),
+        "--out".into(),
+        "/dev/null".into(),
+    ]
+}
+
+fn run_child(c: &Config, ctx: &Ctx) -> Result<BTreeMap<String, String>, String> {
+    let cmd = child_cmd(c, ctx);
+    let o = std::process::Command::new(&cmd[0])
+        .args(&cmd[1..])
+        .output()
+        .map_err(|e| format!("cannot spawn {}: {}", c.bin, e))?;
+    let text = String::from_utf8_lossy(&o.stdout);
+    let mut m = BTreeMap::new();
+    let mut info_ok = false;
+    let expect_info = format!("info parallel={} threads={}", c.parallel, c.threads);
+    for l in text.lines() {
+        if l.starts_with("info ") {
+            if l.trim() != expect_info {
+                return Err(format!("configuration did not take effect: child reports `{}`, expected `{}`", l, expect_info));
+            }
+            info_ok = true;
+            continue;
+        }
+        let f: Vec<&str> = l.split(' ').collect();
+        if f.len() == 3 && f[0] == "digest" {
+            if m.insert(f[1].to_string(), f[2].to_string()).is_some() {
+                return Err(format!("case-id {} printed twice", f[1]));
+            }
+        }
+    }
+    if !o.status.success() {
+        return Err(format!(
+            "child exited with {:?}: {}",
+            o.status.code(),
+            String::from_utf8_lossy(&o.stderr).chars().take(300).collect::<String>()
+        ));
+    }
+    if m.is_empty() || !info_ok {
+        return Err("child printed no digest / no info line".into());
+    }
+    Ok(m)
+}
 
 pub fn run(ctx: &mut Ctx) {
-    let _ = ctx;
+    if ctx.child {
+        child(ctx);
+        return;
+    }
+    let exe = std::env::current_exe().expect("current_exe").to_string_lossy().to_string();
+    // stored transcripts for provers with their own randomness (Hyrax)
+    for t in 0..transcripts(ctx) {
+        parent_transcript::<generic::Hyrax>(ctx, t);
+    }
+    let mut configs: Vec<Config> = vec![];
+    for th in [1usize, 2, 3, 8, 16] {
+        configs.push(Config {
+            name: format!("parallel/threads={}", th),
+            bin: exe.clone(),
+            threads: th,
+            parallel: cfg!(feature = "parallel"),
+        });
+    }
+    let repeats = ctx.n(2, 5);
+    for r in 0..repeats {
+        configs.push(Config {
+            name: format!("parallel/threads=16/repeat{}", r + 2),
+            bin: exe.clone(),
+            threads: 16,
+            parallel: cfg!(feature = "parallel"),
+        });
+    }
+    match ctx.nopar_bin.clone() {
+        Some(p) if std::path::Path::new(&p).is_file() => {
+            configs.push(Config { name: "no-parallel-feature/threads=1".into(), bin: p, threads: 1, parallel: false });
+        }
+        Some(p) => {
+            ctx.rep.expect_fail(
+                "C18/no-parallel-binary",
+                "harness/nopar-binary-missing",
+                &format!("--nopar-bin {} was given but the file does not exist: the feature-set half of the quantifier was not run", p),
+                format!("# C18: binary without the `parallel` feature missing\n# expected at: {}\n# seed: {}\n# build: cd /verif/harness && cargo build --offline --no-default-features --target-dir /verif/.build/cargo-nopar\n", p, ctx.seed),
+            );
+        }
+        None => ctx
+            .rep
+            .notes
+            .push("no --nopar-bin given: only thread counts were varied, not the feature set".into()),
+    }
+    if !cfg!(feature = "parallel") {
+        ctx.rep.notes.push("this harness binary itself was built WITHOUT the parallel feature".into());
+    }
+
+    let mut results: Vec<(usize, BTreeMap<String, String>)> = vec![];
+    for (i, c) in configs.iter().enumerate() {
+        let t0 = std::time::Instant::now();
+        match run_child(c, ctx) {
+            Ok(m) => {
+                ctx.rep.notes.push(format!(
+                    "config {}: {} digests in {:.1}s",
+                    c.name,
+                    m.len(),
+                    t0.elapsed().as_secs_f64()
+                ));
+                results.push((i, m));
+            }
+            Err(e) => {
+                let cmd = child_cmd(c, ctx).join(" ");
+                ctx.rep.expect_fail(
+                    &format!("C18/child/{}", c.name),
+                    "harness/child-failed",
+                    &format!("configuration {} produced no transcript: {}", c.name, e),
+                    format!("# C18: child run failed\n# configuration: {}\n# seed: {}\n# {}\n# rerun: {}\n", c.name, ctx.seed, e, cmd),
+                );
+            }
+        }
+    }
+    if results.is_empty() {
+        return;
+    }
+    let (ref_i, ref_m) = (&results[0].0, results[0].1.clone());
+    let ref_cfg = &configs[*ref_i];
+    for (i, m) in &results {
+        let c = &configs[*i];
+        for (case, d) in m {
+            let scheme = case.split('/').next().unwrap_or("?").to_string();
+            ctx.rep.count(&format!("scheme/{}", scheme));
+            ctx.rep.case(&format!("{} under {} -> {}", case, c.name, &d[..16]), Some(case.clone()));
+            let differs = match ref_m.get(case) {
+                Some(rd) if rd == d => None,
+                Some(rd) => Some(format!("digest {} vs {}", rd, d)),
+                None => Some("case-id absent in the reference configuration".to_string()),
+            };
+            if let Some(what) = differs {
+                ctx.rep.expect_fail(
+                    &format!("C18/{}", case),
+                    &format!("{}/schedule-dependent-output", scheme),
+                    &format!("output {} differs between [{}] and [{}]: {}", case, ref_cfg.name, c.name, what),
+                    format!(
+                        "# C18: deterministic output depends on the thread count / feature set\n# case: {}\n# configuration A: {}\n# configuration B: {}\n# seed: {}\n# {}\n# reference: {} | grep '{} '\n# rerun: {}\n",
+                        case,
+                        ref_cfg.name,
+                        c.name,
+                        ctx.seed,
+                        what,
+                        child_cmd(ref_cfg, ctx).join(" "),
+                        case,
+                        child_cmd(c, ctx).join(" ")
+                    ),
+                );
+            }
+        }
+        for case in ref_m.keys() {
+            if !m.contains_key(case) {
+                let scheme = case.split('/').next().unwrap_or("?").to_string();
+                ctx.rep.expect_fail(
+                    &format!("C18/{}", case),
+                    &format!("{}/schedule-dependent-output", scheme),
+                    &format!("output {} present under [{}] but absent under [{}]", case, ref_cfg.name, c.name),
+                    format!(
+                        "# C18: the set of outputs depends on the thread count / feature set\n# case: {}\n# configuration A: {}\n# configuration B: {}\n# seed: {}\n# rerun: {}\n",
+                        case,
+                        ref_cfg.name,
+                        c.name,
+                        ctx.seed,
+                        child_cmd(c, ctx).join(" ")
+                    ),
+                );
+            }
+        }
+        ctx.rep.count(&format!("config/{}", c.name));
+    }
+    // honest decisions must also be acceptances (C01's matter, but a refusal here would make the
+    // decision digests vacuous): note it
+    let refused: Vec<&String> = ref_m.keys().filter(|k| k.contains("check-honest=refuse")).collect();
+    if !refused.is_empty() {
+        ctx.rep.notes.push(format!("honest transcripts refused (see C01): {:?}", refused));
+    }
+    let accepted_tampered: Vec<&String> = ref_m.keys().filter(|k| k.contains("check-tampered=accept")).collect();
+    if !accepted_tampered.is_empty() {
+        ctx.rep.notes.push(format!("tampered claims accepted (see C02): {:?}", accepted_tampered));
+    }
+    // keep the digest table with the evidence
+    let table = format!(
+        "{{\n  \"seed\": {},\n  \"reference\": {},\n  \"configurations\": [{}],\n  \"digests\": {{\n{}\n  }}\n}}\n",
+        ctx.seed,
+        jstr(&ref_cfg.name),
+        results.iter().map(|(i, _)| jstr(&configs[*i].name)).collect::<Vec<_>>().join(", "),
+        ref_m.iter().map(|(k, v)| format!("    {}: {}", jstr(k), jstr(v))).collect::<Vec<_>>().join(",\n")
+    );
+    std::fs::write(format!("{}/C18-digests.json", ctx.workdir), table).ok();
+    ctx.rep.notes.push(format!(
+        "parallel sites and RNG gates extracted by translators/par_sites.py: {}/par_sites.json; digest table: {}/C18-digests.json",
+        ctx.workdir, ctx.workdir
+    ));
 }
